@@ -33,6 +33,9 @@ func init() {
 			st := r.checkBindings([]string{"stdlib", "unsafe", "syscall", "unrestricted"}, true)
 			// files the installed toolchain does not select: other release, other platforms
 			r.syntacticBindings([]string{"stdlib/go1_21_*.go", "stdlib/syscall/go1_2*_syscall_*.go", "stdlib/unrestricted/go1_2*_*.go", "stdlib/unsafe/go1_21_*.go"}, st)
+			if r.Thorough {
+				r.bindingsAllPlatforms(st)
+			}
 			r.Extra["tables"] = st.tables
 			r.Extra["ground_entries_checked"] = st.entries
 			r.Extra["entries_by_form"] = map[string]int{"func_or_typed_const": st.funcs, "var_by_address": st.vars, "type": st.types_, "const_literal": st.consts, "wrapper": st.wrappers}
@@ -51,7 +54,7 @@ func init() {
 	trusted := []string{"T1 go toolchain, go/types, solvers", "T2 govc VC generator", "A3 sequential semantics for sync/atomic and mutexes", "opaque callees (runCfg, gen*) preserve frame.id/Interpreter.id: justified by the id-writers obligation"}
 	register(&PropDef{
 		ID: "C09", Patterns: []string{"./interp"},
-		Extra:   func(r *Run) { r.idWriters(); r.blockingOps() },
+		Extra:   func(r *Run) { r.idWriters(); r.blockingOps(); r.contextWatchers() },
 		Covered: []string{"newFrame/clone/stop contracts", "id inheritance at every newFrame call site", "run-id gate before every exec closure application in both runCfg loops", "writers of frame.id / Interpreter.id enumerated", "recv/recv2/send/rangeChan: the blocking reflect.Select races f.done at index 0 and the closure returns nil when it is chosen"},
 		Uncov:   []string{"promptness (time) and goroutine exit", "interleavings of stop with a running frame", "the select statement (_select): its case vector is a slice of struct values filled in a loop, outside the slice model"},
 		Trusted: trusted,
